@@ -162,7 +162,7 @@ pub(crate) fn percentage_or_unitless(
         return Err((
             format!(
                 "${name}: Expected {} to have no units or \"%\".",
-                inspect_number(number, visitor.options, span)?,
+                inspect_number(number, &Options::default(), span)?,
                 name = name,
             ),
             span,
